@@ -271,3 +271,6 @@ func firstClass(r *explore.TxRec) string {
 	}
 	return "failed-free"
 }
+
+// C03EarlyCode tells whether a response code is (also) returned before a transaction's own Run.
+func C03EarlyCode(code uint32) bool { return c03EarlyCode[code] }
